@@ -152,8 +152,11 @@ def _delta(ctx: Any, prof: str, allow_identity: bool = True) -> dict:
     keys = orders[ctx.choose(len(orders), 'keys')]
     d = {}
     for k in keys:
-        o = ctx.choose(6 if prof == 'val2' else 5, 'value')
-        if o == 4 and prof != 'val2' or o == 5:
+        o = ctx.choose(7 if prof == 'val2' else 6, 'value')
+        if o == (6 if prof == 'val2' else 5):
+            # a pending set-variable substitution as a plug (built through interpreter.ssubst by every stack)
+            d[k] = P.SSubst(P.MetaVar(2), P.SVar(ctx.int('X')), P.EVar(ctx.int('e')))
+        elif o == 4 and prof != 'val2' or o == 5:
             # prints like the clean MetaVar(1) but is a different pattern
             d[k] = P.MetaVar(1, e_fresh=(P.EVar(0),), s_fresh=(P.SVar(0),), positive=(P.SVar(1),), negative=(P.SVar(2),), app_ctx_holes=(P.EVar(1),))
         elif o == 0:
@@ -270,7 +273,7 @@ def levels(tier: str) -> list[dict]:
         L.append(dict(label=f'raw/depth={depth}/val', module=M, fn='h_raw', kwargs=dict(depth=depth, prof='val'), budget_s=bud, required=depth <= 1, twin=(depth == 1)))
     L.append(dict(label='raw/depth=1/partial-instantiate-values', module=M, fn='h_raw', kwargs=dict(depth=1, prof='val2'), budget_s=bud, required=True, twin=False))
     # whole modules through ProofExp.serialize, plain and optimised (Counting and Memoizing(Serializing) share the claim list)
-    for shape, nax in ((0, 1), (1, 1)):
+    for shape, nax in ((0, 1), (1, 1), (3, 1)):
         L.append(dict(label=f'module/imports={shape},axioms={nax},size<=2,claims<=2', module='vf.props.c03', fn='h_module', kwargs=dict(shape=shape, nax=nax, nclaims=2, prof='ax', size=2), budget_s=bud, required=True, twin=False))
     names = [n for n in (QUICK_LEMMAS if q else sorted(c10.BIND)) if n in c10.BIND and (q or len(c10.INV[n]['letters']) <= 3)]
     for n in names:
